@@ -201,6 +201,28 @@ def run(ctx: Ctx, rep: Report) -> None:
             f"time argument `{origin}`" + ("" if clock_dep else ": its only origin is the cached discovery field - it never advances, so any request later than 150 s after discovery is answered with notInTimeWindow"),
             key=f"{enc.key}|engine-time-constant",
         )
+        # ... and it is their *sum*: the remote clock runs forwards (evaluated for three elapsed values)
+        if targ is not None and tnode is not None and clock_dep and base_ok:
+            from ..engine.exprs import Unevaluable, int_eval
+
+            clock_locals = [n.id for n in ast.walk(defs.expand(targ, stop=[x.id for x in ast.walk(targ) if isinstance(x, ast.Name)])) if isinstance(n, ast.Name) and n.id not in enc.params and depends_on_clock(n, tnode)]
+            exp_t = defs.expand(targ, stop=clock_locals)
+            sums: List[Tuple[int, Any]] = []
+            try:
+                for probe in (1, 7, 200):
+
+                    def atoms2(x: ast.AST, probe=probe):
+                        if isinstance(x, ast.Attribute) and x.attr == "authoritative_engine_time":
+                            return 1000
+                        if isinstance(x, ast.Name) and x.id in clock_locals:
+                            return probe
+                        return None
+
+                    sums.append((probe, int_eval(exp_t, atoms2)))
+                forwards = bool(clock_locals) and all(got == 1000 + probe for probe, got in sums)
+                rep.check(forwards, "C12-R3", enc.site(tcalls[0]), "the engine time sent = discovered time PLUS the locally elapsed seconds (the estimate of the remote clock runs forwards)", f"time argument `{norm(exp_t)}` evaluates to {[g for _, g in sums]} for elapsed = {[p for p, _ in sums]} and a discovered time of 1000", key=f"{enc.key}|engine-time-direction")
+            except Unevaluable:
+                rep.info(f"engine time expression `{norm(exp_t)}` is not an integer expression over the cached time and the elapsed seconds; direction not evaluated")
         # the reference stamp is taken from the same clock right after discovery, in the same block
         ok = stamp_node is not None and any(disco_assign in blk and stamp_node in blk and blk.index(stamp_node) == blk.index(disco_assign) + 1 for blk in _blocks(enc.node))
         rep.check(ok, "C12-R3", enc.site(stamp_node) if stamp_node is not None else enc.site(), "the local reference time is taken immediately after the discovery reply (same block)", key=f"{enc.key}|stamp-position")
